@@ -122,24 +122,26 @@ Fixpoint cooked_walk (fuel : nat) (f : forest) (d : die) (parent : option N) : l
 Definition should_integrate (name : N) : bool := negb ((name =? AT_sibling) || (name =? AT_declaration)).
 Definition is_link (name : N) : bool := (name =? AT_specification) || (name =? AT_abstract_origin).
 
-(* attributes of one DIE: (outputs, newly scheduled DIEs most-recent-first, seen) *)
-Fixpoint integrate_die (f : forest) (secondary : bool) (d : die) (ats : list attr) (seen : list N) (sched : list die)
-  : list (N * attr) * list die * list N :=
+(* attributes of one DIE: (outputs, what DW_AT_specification and DW_AT_abstract_origin
+   lead to -- the first of each --, seen) *)
+Fixpoint integrate_die (f : forest) (secondary : bool) (d : die) (ats : list attr) (seen : list N)
+         (spec ao : option die) : list (N * attr) * option die * option die * list N :=
   match ats with
-  | [] => ([], sched, seen)
+  | [] => ([], spec, ao, seen)
   | a :: rest =>
-    let sched' := if is_link (a_name a)
-                  then match a_ref a with
-                       | Some o => match find_die f o with Some t => t :: sched | None => sched end
-                       | None => sched
-                       end
-                  else sched in
-    if secondary && negb (should_integrate (a_name a)) then integrate_die f secondary d rest seen sched'
-    else if existsb (N.eqb (a_name a)) seen then integrate_die f secondary d rest seen sched'
-    else let '(out, s, sn) := integrate_die f secondary d rest (seen ++ [a_name a]) sched' in
-         ((d_off d, a) :: out, s, sn)
+    let target := match a_ref a with Some o => find_die f o | None => None end in
+    let spec' := if (a_name a =? AT_specification) then (match spec with Some _ => spec | None => target end) else spec in
+    let ao' := if (a_name a =? AT_abstract_origin) then (match ao with Some _ => ao | None => target end) else ao in
+    if secondary && negb (should_integrate (a_name a)) then integrate_die f secondary d rest seen spec' ao'
+    else if existsb (N.eqb (a_name a)) seen then integrate_die f secondary d rest seen spec' ao'
+    else let '(out, s, o, sn) := integrate_die f secondary d rest (seen ++ [a_name a]) spec' ao' in
+         ((d_off d, a) :: out, s, o, sn)
   end.
 
+Definition opt_list {A} (o : option A) : list A := match o with Some x => [x] | None => [] end.
+
+(* depth first: what the specification leads to is visited before what the
+   abstract origin leads to, both before anything scheduled earlier *)
 Fixpoint cooked_attrs_loop (fuel : nat) (f : forest) (stack : list die) (secondary : bool) (seen : list N) : list (N * attr) :=
   match fuel with
   | O => []
@@ -147,8 +149,8 @@ Fixpoint cooked_attrs_loop (fuel : nat) (f : forest) (stack : list die) (seconda
     match stack with
     | [] => []
     | d :: stack' =>
-      let '(out, stack'', seen') := integrate_die f secondary d (d_attrs d) seen stack' in
-      out ++ cooked_attrs_loop fu f stack'' true seen'
+      let '(out, spec, ao, seen') := integrate_die f secondary d (d_attrs d) seen None None in
+      out ++ cooked_attrs_loop fu f (opt_list spec ++ opt_list ao ++ stack') true seen'
     end
   end.
 
